@@ -817,3 +817,24 @@ Fixpoint stats_run (upd : bool -> list Z -> bool -> rstats -> option rstats)
   | [] => Some s
   | (o, d, e) :: t => match upd o d e s with Some s1 => stats_run upd t s1 | None => None end
   end.
+
+(* ---- instance ids of the shared dongle ----
+   _SharedRadio.open_instance: instance_id = self._next_instance_id; self._next_instance_id += 1 (a counter that never
+   goes back); the id keys the response queue (_rsp_queues[id]); STOP deletes the entry.  IOpen / IClose id over
+   arbitrary histories (closing in any order, closing what is not open has no effect). *)
+Inductive iev := IOpen | IClose (id : Z).
+
+Definition istep_counter (st : Z * list Z) (e : iev) : Z * list Z :=
+  match e with
+  | IOpen => (fst st + 1, snd st ++ [fst st])
+  | IClose i => (fst st, filter (fun j => negb (j =? i)) (snd st))
+  end.
+Definition irun_counter (evs : list iev) : Z * list Z := fold_left istep_counter evs (0, []).
+
+(* the variant "next id = number of instances that are open" (seeded/C01-o) *)
+Definition istep_len (st : list Z) (e : iev) : list Z :=
+  match e with
+  | IOpen => st ++ [Z.of_nat (length st)]
+  | IClose i => filter (fun j => negb (j =? i)) st
+  end.
+Definition irun_len (evs : list iev) : list Z := fold_left istep_len evs [].
